@@ -439,6 +439,17 @@ def run(spec, out):
             violation(f"C19:declared-name-not-bound:{label}:{state_class}", f"{label} ({state_class}): {problem}", {"label": label, "state": state_class})
         return r
 
+    def by_name_through_pydantic(name):
+        try:
+            from pydantic import TypeAdapter
+            if "adapter" not in by_name_through_pydantic.__dict__:
+                by_name_through_pydantic.adapter = TypeAdapter(Unit)
+            return by_name_through_pydantic.adapter.validate_python(name)
+        except ImportError:
+            return None
+        except Exception as e:
+            return e
+
     def unit_bound(u, name, symbol):
         def check(_):
             if name:
@@ -446,6 +457,12 @@ def run(spec, out):
                     return f"Unit._by_name[{name!r}] is {Unit._by_name.get(name)!r}"
                 if name not in u.names:
                     return f"unit does not report name {name!r}"
+                if Unit.named(name) is not u:
+                    return f"Unit.named({name!r}) is {Unit.named(name)!r}"
+                got = by_name_through_pydantic(name)
+                count("lookups_by_name_through_pydantic")
+                if got is not None and got is not u:
+                    return f"a pydantic Unit field given the name {name!r} resolves to {got!r}"
             if symbol:
                 try:
                     got = Unit.resolve_symbol(symbol)
@@ -480,6 +497,15 @@ def run(spec, out):
         if r < 0.12:
             n = fresh("zqn")
             s, state = symbol_for_declaration()
+            if rng.random() < 0.2:
+                # a NAME that also reads as somebody else's symbol, or as prefix + symbol ('rad' the absorbed dose next to the
+                # radian's symbol rad, 'mu' the area next to milli-u): names and symbols are separate tables, the declaration is
+                # valid, and every lookup BY NAME gives this unit
+                taken = sorted(x for x in Unit._by_symbol if x.isalpha() and x not in Unit._by_name)
+                pfx = sorted(x for x in Prefix._by_symbol if x.isalpha())
+                cand = rng.choice(taken) if rng.random() < 0.5 or not pfx else rng.choice(pfx) + rng.choice(taken)
+                if cand not in Unit._by_name and cand not in Unit._by_symbol or cand in taken:
+                    n, state = cand, "name-that-reads-as-a-symbol"
             if lookalikes and rng.random() < 0.25:
                 # a spelling that is only *canonically equivalent* (Unicode) to a symbol somebody else owns: a different
                 # string, so a valid declaration - and the owner keeps its symbol
